@@ -750,6 +750,14 @@ fn fair_completion(w: &mut World, rounds: usize) {
                     if !out.starts_with("stream") { break; }
                     progressed = true;
                 }
+                if w.opts[e].bind_cap > 0 {
+                    // the application keeps taking bind requests too (it answers them or not, as generated)
+                    loop {
+                        let out = w.stim(e, &[s("bindnext")]);
+                        if !out.starts_with("bindreq") { break; }
+                        progressed = true;
+                    }
+                }
             }
             for h in 0..w.view[e].handles.len() {
                 if !w.view[e].handles[h].alive { continue; }
